@@ -255,7 +255,8 @@ def summarize(paths, truncated):
         s['called'].update(p.get('called', ())); s['stubs'].update(p.get('stubs', ())); s['notes'].update(p.get('notes', ())); s['trans'].update(p.get('trans', ()))
         s['denoms'] = max(s['denoms'], p.get('denoms', 0)); s['gens'] = max(s['gens'], p.get('gens', 0))
         if p['status'] == 'monitor':
-            if p.get('monitor_feasible') == 'sat': s['violations'].append({'label': 'monitor:' + p.get('monitor_kind', '?'), 'msg': p['msg'], 'model': p.get('monitor_model'), 'decisions': p['decisions'], 'stack': p.get('stack')})
+            site = (p.get('stack') or ['?'])[-1]
+            if p.get('monitor_feasible') == 'sat': s['violations'].append({'label': 'monitor:' + p.get('monitor_kind', '?') + '@' + site[:80], 'msg': p['msg'], 'model': p.get('monitor_model'), 'decisions': p['decisions'], 'stack': p.get('stack')})
             elif p.get('monitor_feasible') == 'unsat': pass
             else: s['inconclusive'].append({'label': 'monitor', 'msg': p['msg'] + ' (feasibility unknown)', 'decisions': p['decisions']})
         elif p['status'] in ('unsupported', 'bound', 'internal'):
